@@ -161,6 +161,8 @@ def sym(case, name):
 
 
 def ref_of(case):
+    if case.get("no_start"):
+        return Cfg(None, [])          # CFG(): no start symbol, the empty language (what an empty intersection returns)
     prods = [(sym(case, h), tuple(sym(case, x) for x in b)) for h, b in case["prods"]]
     return Cfg(sym(case, case["start"]), prods,
                variables=[sym(case, v) for v in case["vars"]] if case.get("ctor_sets") else (),
@@ -169,6 +171,8 @@ def ref_of(case):
 
 def build(case):
     from pyformlang.cfg import CFG, Variable, Terminal, Production
+    if case.get("no_start"):
+        return CFG()
     ps = []
     mine = []
     for i, (h, b) in enumerate(case["prods"]):
@@ -262,6 +266,8 @@ def shrink_cfg(case):
         yield mk(ctor_sets=False)
     if case.get("start_raw"):
         yield mk(start_raw=False)
+    if case.get("no_start"):
+        yield mk(no_start=False)
     if case.get("hash"):
         ident = {n: i for i, n in enumerate(sorted(case["hash"]))}
         if ident != case["hash"]:
